@@ -28,6 +28,8 @@ SCALARS = {
     "long": ("typename Cfg::L", "L"), "unsigned long": ("std::make_unsigned_t<typename Cfg::L>", "L"),
     "long long": ("typename Cfg::LL", "LL"), "unsigned long long": ("std::make_unsigned_t<typename Cfg::LL>", "LL"),
     "float": ("float", 4), "double": ("double", 8), "c08::E8": ("c08::E8", 4),
+    # an enumeration over a 64-bit type: like every enum it keeps the application's representation in the sandbox image
+    "c08::E64": ("c08::E64", 8),
 }
 INTS = ["bool", "char", "signed char", "unsigned char", "short", "unsigned short", "int", "unsigned int", "long", "unsigned long",
         "long long", "unsigned long long"]
@@ -56,7 +58,7 @@ def random_fields(rnd, n, allow_nested, prefix):
         elif k == "flt":
             fs.append(Field("scalar", nm, ct=rnd.choice(["float", "double"])))
         elif k == "enum":
-            fs.append(Field("scalar", nm, ct="c08::E8"))
+            fs.append(Field("scalar", nm, ct=rnd.choice(["c08::E8", "c08::E8", "c08::E64"])))
         elif k == "ptr":
             fs.append(Field("ptr", nm, pointee=rnd.choice(POINTEES), const=False))
         elif k == "cptr":
@@ -175,6 +177,8 @@ def gen_struct(k, rnd, path):
     nfields = rnd.randint(3, 14)
     inner = random_fields(rnd, rnd.randint(2, 5), False, "i")
     fields = random_fields(rnd, nfields, True, "m")
+    if k % 6 == 1:  # whatever the seed draws, some structs of every family carry an enumeration over a 64-bit type
+        fields.insert(rnd.randint(0, len(fields)), Field("scalar", "m%d" % len(fields), ct="c08::E64"))
     # the reflection macros use f and g as parameter names: no field may be called f or g (names are m<i>/i<i>)
     has_nested = any(f.kind == "nested" for f in fields)
     o = ["// generated by gen/structs.py -- struct %s" % sname, "#pragma once"]
